@@ -15,6 +15,7 @@ async fn run(mut sim: Sim, seed: u64, lossy: bool) -> Result<Value, String> {
     // explicit dials are never blocked by the dialer's own connection limit (0: always "reached"),
     // and a dial that answers Ok has registered the peer
     let limit = [None, None, Some(0), Some(1)][sim.rng.gen_range(0..4)];
+    let cap = [None, None, Some(1usize), Some(2)][sim.rng.gen_range(0..4)];
     let o = Opts {
         nodes: 3,
         ops: 0,
@@ -43,6 +44,9 @@ async fn run(mut sim: Sim, seed: u64, lossy: bool) -> Result<Value, String> {
         let mut cfg = node_cfg(*key, &o);
         if ident == roles[0] {
             cfg.config.max_concurrent_connections = limit; // the dialer only
+            // the cap on connections being established governs background dials; explicit dials go ahead
+            // at once, pinned as asked, however many are under way
+            cfg.config.max_concurrent_outstanding_connecting_connections = cap;
         }
         let i = sim.add_node(cfg).map_err(|e| e.to_string())?;
         node_of_identity[ident] = i;
@@ -115,14 +119,41 @@ async fn run(mut sim: Sim, seed: u64, lossy: bool) -> Result<Value, String> {
         }
     }
 
-    // the dialer's own address is a target too (self-dial, pinned to itself or not)
-    let targets = [sim.addr(x), sim.addr(y), addr1, addr2, sim.addr(d), addr3];
+    // dials that hang on an address where nobody answers keep the dialer's establishing connections at
+    // (or over) its cap for the first two seconds
+    let dead = sim::next_port();
+    sim.run.obs(-1, "obs.addr", json!({"addr": dead.to_string(), "who": -1, "kind": "dead"}));
+    let mut hanging = Vec::new();
+    if cap.is_some() {
+        for _ in 0..2 {
+            let net = sim.net(d).clone();
+            let run = sim.run.clone();
+            hanging.push(tokio::spawn(async move {
+                let r = tokio::time::timeout(std::time::Duration::from_secs(120), net.connect(dead)).await;
+                let err = match r { Ok(Ok(_)) => None, Ok(Err(e)) => Some(format!("{e}")), Err(_) => Some("HANG".into()) };
+                run.obs(d as i64, sim::connect_event(err.as_deref()), json!({"ok": err.is_none(), "err": err, "addr": dead.to_string()}));
+            }));
+        }
+        settle(&mut sim, 2).await;
+    }
+    // the dialer's own address is a target too (self-dial, pinned to itself or not); and X's address
+    // written as an IPv4-mapped IPv6 address, which an IPv4 endpoint cannot dial at all
+    let mapped = |a: std::net::SocketAddr| match a.ip() {
+        std::net::IpAddr::V4(v4) => std::net::SocketAddr::new(std::net::IpAddr::V6(v4.to_ipv6_mapped()), a.port()),
+        _ => a,
+    };
+    let x_mapped = mapped(sim.addr(x));
+    sim.run.obs(-1, "obs.addr", json!({"addr": x_mapped.to_string(), "who": -1, "kind": "dead"}));
+    let targets = [sim.addr(x), sim.addr(y), addr1, addr2, sim.addr(d), addr3, x_mapped];
     let pins = [Some(sim.peer_id(x)), None, Some(sim.peer_id(y)), Some(sim::peer_id_of(&e_key)), Some(sim.peer_id(d))];
     let mut cases: Vec<(usize, usize)> = Vec::new();
-    for t in 0..6 {
+    for t in 0..7 {
         for p in 0..5 {
             if (t == 4) != (p == 4) && !(t == 4 && p == 1) {
                 continue; // self address only with the self pin or no pin; self pin only there
+            }
+            if t == 6 && p > 2 {
+                continue;
             }
             cases.push((t, p));
         }
@@ -189,6 +220,9 @@ async fn run(mut sim: Sim, seed: u64, lossy: bool) -> Result<Value, String> {
         if let Ok(Ok(true)) = tokio::time::timeout(std::time::Duration::from_secs(300), h).await {
             n_ok += 1;
         }
+    }
+    for h in hanging {
+        let _ = tokio::time::timeout(std::time::Duration::from_secs(300), h).await;
     }
     settle(&mut sim, 100).await;
     sim.obs_all_peers();
